@@ -124,6 +124,16 @@ func Discard(rs ref.Store, id uuid.UUID) (err error) {
 	if tx.Status == ref.TSCommitted {
 		return fmt.Errorf("cannot discard committed transaction")
 	}
+	// A commit that failed half way has already moved some branches: dropping
+	// the staged refs and the record now would make that half-applied state
+	// permanent. Such a transaction can only be completed.
+	logs, err := rs.GetTransactionLogs(id)
+	if err != nil {
+		return err
+	}
+	if len(logs) > 0 {
+		return fmt.Errorf("cannot discard partially committed transaction, commit it again to complete it")
+	}
 	if err = ref.DeleteTransactionRefs(rs, id); err != nil {
 		return
 	}
